@@ -132,6 +132,22 @@ let () = iter_lines (fun line ->
       let st = (match o with AOk -> "S" | AExn -> "Ec" | AStuck -> "STUCK") in
       let items = if live = [] then "-" else String.concat "," (Stdlib.List.map (function Raw -> "raw" | Obj v -> string_of_z v) live) in
       (Printf.sprintf "%s count=%d items=%s %s" st cntv items (trace_str w'.tr []), fired w'))
+  | ["ir"; c; kind; dst; args] ->
+    let c = cat_of c in
+    let dst = zs dst and args = zs args in
+    enumerate kind (fun w ->
+      let st = BulkOps.insert_range c args dst w in
+      (Printf.sprintf "%s dst=%s %s" (stat_str st.BulkOps.i_stat st.BulkOps.i_w) (join_sorted st.BulkOps.i_dst) (trace_str st.BulkOps.i_w.tr []),
+       fired st.BulkOps.i_w))
+  | "rp" :: c :: kind :: m :: bks ->
+    let c = cat_of c and m = int_of_string m in
+    let bks = pad (Stdlib.List.map zs bks) 8 in
+    let p x = (zi (Merge.key x)) mod m = 0 in
+    enumerate kind (fun w ->
+      let st = BulkOps.remove_pred c p bks w in
+      let src = (match st.BulkOps.r_done @ [st.BulkOps.r_cur] @ st.BulkOps.r_todo with _ :: t -> t | [] -> []) in
+      (Printf.sprintf "%s src=%s %s" (stat_str st.BulkOps.r_stat st.BulkOps.r_w) (String.concat "|" (Stdlib.List.map join src)) (trace_str st.BulkOps.r_w.tr []),
+       fired st.BulkOps.r_w))
   | ["pm"; kc; vc; op; k; ks; vs; km; vm] ->
     let kc = cat_of kc and vc = cat_of vc and k = int_of_string k in
     let src = (z_of_string ks, z_of_string vs) and mid = (z_of_string km, z_of_string vm) in
